@@ -87,6 +87,20 @@ func matcherParts(r *core.Run, rulePart, ruleThresh string) {
 						isByName = c.Value.String() == "true"
 					}
 				}
+				// the record may be built by a helper: its literal decides
+				if hc, isCall := core.Unwrap(elems[0]).(*ssa.Call); isCall && !okB {
+					if g := core.StaticCallee(&hc.Call); g != nil && p.IsProdFunc(g) && g.Blocks != nil {
+						all := len(core.Returns(g)) > 0
+						for _, ret := range core.Returns(g) {
+							bv, okR := core.StructLitField(ret.Results[0], "ByName")
+							c, isC := bv.(*ssa.Const)
+							if !okR || !isC || c.Value == nil || c.Value.String() != "true" {
+								all = false
+							}
+						}
+						isByName = all
+					}
+				}
 				// marks set in the same block
 				var marks []*ssa.MapUpdate
 				for _, in2 := range ap.Block().Instrs {
